@@ -300,7 +300,7 @@ func one(r *ev.Run, c *ev.Case, i int, mu *sync.Mutex, seenKeys map[string]int) 
 		return
 	}
 	defer rig.Close()
-	ps := gsrig.ParamSpec{LogName: logName, ReqUser: str(24), ReqHost: str(40), ClientIP: gen.IP(rng), TransID: gen.Ident(rng, 10), Policy: "NONS", CAAlgo: []int{0, 1, 2, 3, 4, 5, 0, 1, 3, 17, -1}[rng.Intn(11)]}
+	ps := gsrig.ParamSpec{LogName: logName, ReqUser: str(24), ReqHost: str(40), ClientIP: gen.IP(rng), TransID: gen.Ident(rng, 10), Policy: "NONS", CAAlgo: []int{0, 1, 2, 3, 4, 5, 0, 1, 3, 17, -1, 256, 257, 259, 1<<32 + 1, 1 << 16, -255}[rng.Intn(17)]}
 	if rng.Intn(6) == 0 {
 		// names with white space at their ends are names all the same ("recorded verbatim")
 		ws := []string{" ", "\t", "\u00a0", "\n", "\u0085", "  "}
